@@ -43,7 +43,7 @@ def showSPc : SPc → String
 
 def showD (d : DState) : String :=
   let s := d.s
-  let subs := (List.range s.w.length).map fun i => s!"s{i}:{showSPc (s.spc i)}@{s.sidx i}/{jobsOf s.w i}"
+  let subs := (List.range s.w.jobs.length).map fun i => s!"s{i}:{showSPc (s.spc i)}@{s.sidx i}/{jobsOf s.w i}"
   let acts := (List.range s.nacts).map fun a => s!"a{a}:{showAPc (s.acts a)}"
   let st := d.stacks.map fun (t, l) => s!"{t}:{l}"
   s!"word={showWord s.word} {" ".intercalate subs} {" ".intercalate acts} stacks={" ".intercalate st} " ++
@@ -53,7 +53,7 @@ def showD (d : DState) : String :=
 def initS (hdr : List String) : Option DState := do
   let js ← hdrGet hdr "jobs"
   let w ← (js.splitOn ",").mapM (fun x => x.toNat?)
-  pure { s := init w, stacks := [] }
+  pure { s := init { jobs := w }, stacks := [] }
 
 def stackOf (d : DState) (t : String) : List Nat :=
   match d.stacks.find? (fun p => p.1 = t) with
@@ -73,7 +73,7 @@ def topAct (d : DState) (t : String) : Option Nat := (stackOf d t).head?
 def subOf (d : DState) (t : String) : Option Nat :=
   if t.startsWith "s" then
     match (t.drop 1).toString.toNat? with
-    | some i => if i < d.s.w.length then some i else none
+    | some i => if i < d.s.w.jobs.length then some i else none
     | none => none
   else none
 
@@ -175,7 +175,7 @@ def stepS (d : DState) (ts : List String) : Option (Option (DState × String)) :
 /-- at the end of a run (the harness joins every fiber) everything must have finished -/
 def finalS (d : DState) : Option String :=
   let s := d.s
-  if (List.range s.w.length).any (fun i => s.spc i ≠ .idle ∨ s.sidx i ≠ jobsOf s.w i) then some "a submitter has not finished"
+  if (List.range s.w.jobs.length).any (fun i => s.spc i ≠ .idle ∨ s.sidx i ≠ jobsOf s.w i) then some "a submitter has not finished"
   else if (List.range s.nacts).any (fun a => !terminal (s.acts a)) then some "an activation has not finished"
   else if s.word ≠ .mark then some "the word is not the idle marker"
   else if d.stacks.any (fun p => p.2 ≠ []) then some "a thread is still inside an activation"
